@@ -305,6 +305,28 @@ def gen_fine_case(rng, ctx):
     return None
 
 
+def gen_adjacent_case(rng, ctx):
+    """a delayed replication (counts 0, 1, 2) whose body holds descriptor X, directly followed by a mandatory X: the loader
+    meets the line of the mandatory element while its cursor is on the skipped (commented) copy of the same descriptor"""
+    for _ in range(50):
+        ed = rng.choice([3, 4, 4])
+        x = rng.choice(ctx.T.pool[rng.choice(["num", "num", "code", "str"])])
+        pre = [rng.choice(ctx.T.pool["num"]) for _ in range(rng.choice([0, 1]))]
+        body = [rng.choice(ctx.T.pool["num"]) for _ in range(rng.choice([0, 0, 1]))] + [x]
+        tmpl = pre + [100000 + len(body) * 1000, rng.choice([31001, 31001, 31000, 31002])] + body + [x] + [rng.choice(ctx.T.pool["num"])]
+
+        def choose(f):
+            if f["desc"] in gen.FACTORS:
+                return dict(raw=rng.choice([0, 0, 1, 2]) if f["desc"] != 31000 else rng.choice([0, 1]), af=0)
+            return gen.choose_value(rng, f)
+        try:
+            subs = [gen.walk(ctx.T, ed, tmpl, choose) for _ in range(rng.choice([1, 2, 3]))]
+        except gen.Reject:
+            continue
+        return dict(ed=ed, tmpl=tmpl, subsets=subs, same=False)
+    return None
+
+
 def nested_delayed(tmpl):
     """does the template contain a delayed replication inside the body of a delayed replication (directly, not via Table D)?"""
     n = len(tmpl)
@@ -335,8 +357,11 @@ def gen_cases(rng, ctx, tier, open_keys):
     plain, _ = codecrun.gen_cases(ctx, rng, n, comp_mode=False)
     comp, _ = codecrun.gen_cases(ctx, rng, n // 3, comp_mode=True)
     fine = [c for c in (gen_fine_case(rng, ctx) for _ in range(n // 2)) if c]
-    for c in plain + comp + fine:
+    adjacent = [c for c in (gen_adjacent_case(rng, ctx) for _ in range(n // 8)) if c]
+    for c in plain + comp + fine + adjacent:
         feats = set(codecrun.features(c))
+        if c in adjacent:
+            feats.add("same_descriptor_after_replication")
         feats |= restring(rng, c, avoid_rbrace)
         if c in fine:
             feats.add("fine_precision")
